@@ -110,7 +110,7 @@ CLAIMS = {
          'a miss counts only if three re-seeded fair phases from the same prefix all miss and every running replica operates under a membership with a running majority. '
          'E2 progress stage (real NodeHosts, PreVote/CheckQuorum/Quiesce matrix, non-voting and witness members): fault prefix, a no-quorum probe (requests must end, not hang), then a fault-free period in which a leader, completion of proposals / reads through every replica / a membership change / a snapshot request, and catch-up of every reachable replica are required within bounds counted in ticks processed per replica (NodeTick hook) and dragonboat tick-based deadlines; directed prefixes: the leader of witness-dependent shards loses power between send and persist; a quiescent shard loses its leader and is then only asked to make proposals; a replica streams a snapshot and must still save / recover snapshots afterwards; transport send queues give up idle connections after 300-900 ms. '
          'compcheck/msgqueue: the real server.MessageQueue against a reference model (accepted = delivered exactly once, delayed SnapshotStatus neither early nor lost), sequential and concurrent under the race detector.'),
-   note=E1_NOTE + '; bounded progress, not liveness; wall clocks are watchdogs only (firing = inconclusive); rate limiting is driven in the E2 progress stage only (a third of its cases). ' + E2_NOTE),
+   note=E1_NOTE + '; bounded progress, not liveness; wall clocks are watchdogs only (firing = inconclusive); rate limiting is driven in a quarter of the E1 cases and a third of the E2 progress cases. ' + E2_NOTE),
  'C18': dict(engine='raftsim+clusterrun', category='exploration', design='DESIGN.md section 4 C18',
    technique='runtime monitoring: role/kind monitors at every simulator step, inspection of every message addressed to a witness, quorum-set accounting at commit advances, elections and read confirmations',
    text=('At every step: a replica in candidate/leader role is a regular voter in its own view; campaigns only by voters; after applying its own removal a replica is not leader; every Replicate to a witness carries only metadata/config-change entries and every snapshot to a witness is a witness snapshot; '
@@ -140,6 +140,7 @@ WIRE = (' E2 wire stage: real NodeHosts on the real file system over dragonboat\
         'all verified inside the user state machine (altered data must never reach it), plus the history oracle and the comparison of every replica with the replay of the committed log; hosts stop gracefully in this stage.')
 
 EXTRA_TEXT = {
+ 'C02': ' E2 chaos stage (node level): over the apply records of every state machine incarnation of a lifetime of real NodeHosts under faults and power losses, an index is applied with one value only, the final lists are equal on all replicas and every replica equals the replay of the committed log.',
  'C01': WIRE + ' E2 learner stage (single voter + non-voting replica, power loss of the voter between sending Replicate and persisting): a proposal that ended without a result must not be visible on the non-voting replica only.',
  'C03': ' E2 members stage: LeaderUpdated events of every host of real NodeHosts during concurrent membership changes, leader isolation and leader transfer feed a single-valued (shard, term) -> leader map.',
  'C04': ' E2 replay stage: power loss of a follower while it is being caught up by snapshot - at the exit of RecoverFromSnapshot, at the entry of the Sync that follows it (on-disk state machines), at the entry / exit of its own SaveSnapshot, a few milliseconds into the repair; it must restart (no panic) with everything it acknowledged.',
@@ -151,7 +152,7 @@ EXTRA_TEXT = {
  'C14': WIRE,
  'C15': WIRE + ' The chunks stage runs on a strict file system and ends every script with a power loss (finalized, announced snapshots must survive byte for byte).',
  'C16': ' Node level (E2 replay stage): whenever a host comes back - after a power loss at step-worker points, at call boundaries of the user state machine (snapshot save / recovery / sync) or at arbitrary moments, or after a graceful stop - the real start-up cleanup (snapshotter.processOrphans) is run on the reopened log store before the replica starts and the directory oracle is applied: only the recorded snapshot remains, complete and loadable, no temporary, flagged or unrecorded directory. E4 chunks stage: power loss after every receiver script, a finalized and announced snapshot must survive byte for byte.',
- 'C17': ' A third of the E2 progress cases run with rate limiting (MaxInMemLogSize 8-72 KB, commands up to 1.5 KB, a slowly applying voter, bursts of writers; proposals refused with ErrSystemBusy are counted).',
+ 'C17': ' A quarter of the E1 cases run with rate limiting (MaxInMemLogSize 2-18 KB, padded proposals, the mini-node holds proposals back while the peer reports RateLimited as node.go does). A third of the E2 progress cases run with rate limiting (MaxInMemLogSize 8-72 KB, commands up to 1.5 KB, a slowly applying voter, bursts of writers; proposals refused with ErrSystemBusy are counted).',
 }
 
 EXTRA_ENGINE = {'C01': 'raftsim+clusterrun', 'C03': 'raftsim+clusterrun', 'C07': 'rsmcheck+raftsim+clusterrun', 'C11': 'clusterrun+rsmcheck', 'C13': 'codeccheck+rsmcheck+clusterrun',
